@@ -105,7 +105,20 @@ PROPS['C16'] = dict(
     assumptions=['readers are drained to the stated extent before the next accessor call'],
 )
 
+def c02_extra(tier, seed, work):
+    import subprocess, os, re, vcheck
+    n = 4000 if tier == 'quick' else 200000
+    out = subprocess.run([os.path.join(vcheck.BUILD, 'harness'), 'ids', str(n), '8'], stdout=subprocess.PIPE, text=True, env=vcheck.GOENV).stdout
+    m = re.search(r'ids total=(\d+) malformed=(\d+) repeated=(\d+)', out)
+    viol = []
+    if not m:
+        viol.append(dict(kind='bad-record-id', case='ids %d 8' % n, detail='id generation run failed: ' + out[-200:], domain='ids'))
+    elif int(m.group(2)) or int(m.group(3)):
+        viol.append(dict(kind='id-repeats' if int(m.group(3)) else 'bad-record-id', case='ids %d 8' % n, detail=out.strip(), domain='ids'))
+    return dict(violations=viol, evaluations=n, coverage=dict(generated_ids=n, id_run=out.strip()))
+
 PROPS['C02'] = dict(
+    extra=c02_extra,
     id='C02',
     domains=['build'],
     n=dict(quick=3000, thorough=120000),
